@@ -1,0 +1,48 @@
+// Copyright 2022-2026 Sauce Labs Inc., all rights reserved.
+//
+// This Source Code Form is subject to the terms of the Mozilla Public
+// License, v. 2.0. If a copy of the MPL was not distributed with this
+// file, You can obtain one at https://mozilla.org/MPL/2.0/.
+
+//go:build verif
+
+package forwarder
+
+import (
+	"net/http"
+
+	"github.com/saucelabs/forwarder/internal/martian"
+)
+
+// VerifObserveTrace is a verification hook (build tag verif, add-only).
+// It lets an external harness observe the proxy's read-request and
+// wrote-response trace events in addition to the hooks configured by
+// middlewareStack (which keep running unchanged). Call it before Run.
+func (hp *HTTPProxy) VerifObserveTrace(onRead func(req *http.Request, err error), onWrote func(res *http.Response, err error)) {
+	old := hp.proxy.Trace
+	t := new(martian.ProxyTrace)
+	t.ReadRequest = func(info martian.ReadRequestInfo) {
+		if onRead != nil {
+			onRead(info.Req, info.Err)
+		}
+		if old != nil && old.ReadRequest != nil {
+			old.ReadRequest(info)
+		}
+	}
+	t.WroteResponse = func(info martian.WroteResponseInfo) {
+		if onWrote != nil {
+			onWrote(info.Res, info.Err)
+		}
+		if old != nil && old.WroteResponse != nil {
+			old.WroteResponse(info)
+		}
+	}
+	hp.proxy.Trace = t
+}
+
+// VerifErrorResponse is a verification hook (build tag verif, add-only).
+// It exposes the error classifier of the proxy (errorResponse) so that it can
+// be run on synthetic errors.
+func (hp *HTTPProxy) VerifErrorResponse(req *http.Request, err error) *http.Response {
+	return hp.errorResponse(req, err)
+}
